@@ -76,15 +76,15 @@ func c29bSame(want map[string]string, got map[string]string) bool {
 func TestVerif_C29(t *testing.T) {
 	r := verifrt.Start(t, "C29")
 	defer r.Finish()
-	r.Rule("client layer: case = 2-16 concurrent callers x 40-200 RemoteTell (and 10% RemoteAsk) with a per-call header set (token + 0-20 extras of 0-600 bytes) or none, on a client built with a harness propagator and WithSendCoalescing(maxBatch in {1,4,64}) against a stub whose first batch is held so that later batches fill; oracle = the per-message metadata on the wire (request-level metadata for asks) equals the header set the message id names, header-less messages carry none; non-trivial = at least one batch mixed messages of different callers with different header sets (always for maxBatch=1: at least two callers)")
+	r.Rule("client layer: case = 2-16 concurrent callers x 40-150 RemoteTell (and 10% RemoteAsk) with a per-call header set (token + 0-20 extras of 0-600 bytes) or none, on a client built with a harness propagator and WithSendCoalescing(maxBatch in {1,4,64}) against a stub whose first batch is held so that later batches fill; oracle = the per-message metadata on the wire (request-level metadata for asks) equals the header set the message id names, header-less messages carry none; non-trivial = at least one batch mixed messages of different callers with different header sets (always for maxBatch=1: at least two callers)")
 	rng := r.Rand(2901)
-	n := r.N(60, 1500)
+	n := r.N(40, 1500)
 	st := c27NewStub(t)
 	defer st.Close()
 	for i := 0; i < n; i++ {
 		maxBatch := []int{1, 4, 64}[rng.Intn(3)]
 		callers := 2 + rng.Intn(15)
-		per := 40 + rng.Intn(161)
+		per := 40 + rng.Intn(111)
 		nonePct := []int{0, 20, 50}[rng.Intn(3)]
 		maxExtra := []int{0, 3, 20}[rng.Intn(3)]
 		seed := rng.Int63()
